@@ -402,10 +402,19 @@ def run_feat(res, case):
         ctx = {'fam': 'feat', 'f': f, 'history': list(h)}
         prev = 'nothing'
         for k, op in enumerate(h):
-            if op == 'P':
-                t = pickle.loads(pickle.dumps(t))
-            elif op == 'D':
-                t = copy.deepcopy(t)
+            if op in ('P', 'D'):
+                try:
+                    t = pickle.loads(pickle.dumps(t)) if op == 'P' \
+                        else copy.deepcopy(t)
+                except CaseTimeout:
+                    raise
+                except Exception as e:
+                    from ..features import FEATURES
+                    res.violate('operation-succeeds', 'feat-op-failed:%s:%s'
+                                % (op, type(e).__name__),
+                                dict(ctx, source=FEATURES[f][1],
+                                     exception=repr(e)[:200]), dict(ctx))
+                    break
             elif k == len(h) - 1 or 'history' in case:
                 # earlier renders of this history are the last operation of
                 # a shorter history that is enumerated as well
